@@ -8,6 +8,7 @@ package checks
 
 import (
 	"fmt"
+	"os"
 	"strings"
 	"sync"
 	"testing"
@@ -25,9 +26,20 @@ type SchedOp struct {
 }
 
 type SchedCase struct {
-	EPN      int         `json:"epn"`
-	Scripts  [][]SchedOp `json:"scripts"`
-	Schedule []int       `json:"schedule"`
+	EPN      int          `json:"epn"`
+	Scripts  [][]SchedOp  `json:"scripts"`
+	Schedule []int        `json:"schedule"`
+	Delays   []SchedDelay `json:"delays,omitempty"`
+}
+
+// SchedDelay: delayed visibility of tree nodes. The client's GETs of node objects that
+// another client stored are counted; those numbered Nth..Nth+Len-1 answer "no such
+// object" although the PUT was acknowledged (the situation upstream's TestDelayedNode
+// models). Afterwards the objects are visible again.
+type SchedDelay struct {
+	Client int `json:"client"`
+	Nth    int `json:"nth"`
+	Len    int `json:"len"`
 }
 
 func genSchedCase(t *rapid.T) SchedCase {
@@ -55,6 +67,13 @@ func genSchedCase(t *rapid.T) SchedCase {
 		c.Scripts = append(c.Scripts, script)
 	}
 	c.Schedule = rapid.SliceOfN(rapid.IntRange(0, n-1), 0, 120).Draw(t, "schedule")
+	if rapid.IntRange(0, 2).Draw(t, "withDelays") == 0 {
+		nd := rapid.IntRange(1, 3).Draw(t, "ndelays")
+		for i := 0; i < nd; i++ {
+			c.Delays = append(c.Delays, SchedDelay{Client: rapid.IntRange(0, n-1).Draw(t, "dclient"),
+				Nth: rapid.IntRange(0, 5).Draw(t, "dnth"), Len: rapid.IntRange(1, 2).Draw(t, "dlen")})
+		}
+	}
 	return c
 }
 
@@ -171,6 +190,7 @@ type openRec struct {
 	begin, end int
 	rows       Rows
 	what       string
+	delayed    bool // some node of another client's version was not visible during it
 }
 
 func rootLevel(q *fakes3.Req) bool {
@@ -192,15 +212,49 @@ func runSched(c SchedCase, o *Obs) error {
 		}
 		return i
 	}
+	var mu sync.Mutex
+	creator := map[string]int{} // node object -> client that stored it first
+	foreignGets := make([]int, n)
+	hits := make([]int, n) // delayed answers handed to each client so far
 	store.Intercept = func(q *fakes3.Req) error {
 		ci := clientOf(q.Client)
-		if ci < 0 || ci >= n || !rootLevel(q) {
+		if ci < 0 || ci >= n {
+			return nil
+		}
+		if !rootLevel(q) {
+			if len(c.Delays) == 0 || !strings.Contains(q.Key, "/node/") {
+				return nil
+			}
+			mu.Lock()
+			defer mu.Unlock()
+			switch q.Op {
+			case "PUT":
+				if _, ok := creator[q.Key]; !ok {
+					creator[q.Key] = ci
+				}
+			case "GET":
+				if cr, ok := creator[q.Key]; ok && cr != ci {
+					k := foreignGets[ci]
+					foreignGets[ci]++
+					for _, d := range c.Delays {
+						if d.Client == ci && k >= d.Nth && k < d.Nth+d.Len {
+							hits[ci]++
+							return fakes3.ErrNoSuchKey()
+						}
+					}
+				}
+			}
 			return nil
 		}
 		sc.yield(ci)
 		return nil
 	}
-	var mu sync.Mutex
+	hitsOf := func(ci int) int {
+		mu.Lock()
+		defer mu.Unlock()
+		return hits[ci]
+	}
+	uncertain := make([]MSet, n) // state after a write that failed while nodes were delayed
 	commits := make([][]commitRec, n)
 	var opens []openRec
 	errs := make([]error, n)
@@ -222,8 +276,21 @@ func runSched(c SchedCase, o *Obs) error {
 			defer conn.Close()
 			tn := uniqName("sc")
 			spec := TableSpec{Name: tn, Columns: mwCols, Bucket: bucket, Client: fmt.Sprintf("s%d", ci), EPN: c.EPN}
-			own := MSet{}
+			own := MSet{}  // every operation this client committed
+			view := MSet{} // those of them its handle currently sees
+			wconn := conn
+			regressed := false
 			wt := int64(0)
+			h0 := 0
+			// tolerated: an operation during which a node was not visible may fail; the
+			// client then stops (what it acknowledged before stays required)
+			tolerated := func() bool {
+				if hitsOf(ci) > h0 {
+					o.Class("delayed-node-operation-failed")
+					return true
+				}
+				return false
+			}
 			recordOpen := func(begin int, conn *Conn, table, what string) error {
 				rows, err := conn.Dump(table)
 				if err != nil {
@@ -231,25 +298,65 @@ func runSched(c SchedCase, o *Obs) error {
 				}
 				end := sc.tick()
 				mu.Lock()
-				opens = append(opens, openRec{ci, begin, end, rows, what})
-				mu.Unlock()
+				defer mu.Unlock()
+				opens = append(opens, openRec{ci, begin, end, rows, what, hits[ci] > h0})
+				if conn == wconn {
+					view = own.Clone()
+					regressed = false
+				}
+				if hits[ci] > h0 {
+					o.Class("delayed-node-open-succeeded")
+					// a version whose nodes were not visible was skipped; when it is the one
+					// this client's own earlier commits were merged into, the handle is back at
+					// an older state of its own rows: find which
+					if conn == wconn {
+						var mine Rows
+						for _, r := range rows {
+							var k int
+							fmt.Sscanf(r[0], "I:%d", &k)
+							if k/100 == ci {
+								mine = append(mine, r)
+							}
+						}
+						if !mine.Sorted().Equal(own.Rows(wideCols)) {
+							// which of its operations the handle still sees is not known to the
+							// model: until its next undisturbed refresh the client only inserts
+							// keys it never used (see the statement branch)
+							o.Class("delayed-node-handle-regressed")
+							regressed = true
+						}
+					}
+				}
 				return nil
 			}
 			begin := sc.tick()
 			if err := conn.Create(spec); err != nil {
+				if tolerated() {
+					return
+				}
 				errs[ci] = fmt.Errorf("client %d: open: %v", ci, err)
 				return
 			}
 			if err := recordOpen(begin, conn, tn, "initial open"); err != nil {
+				if tolerated() {
+					return
+				}
 				errs[ci] = err
 				return
 			}
 			for i, op := range c.Scripts[ci] {
 				where := fmt.Sprintf("client %d op %d (%s)", ci, i, op.Op)
+				h0 = hitsOf(ci)
 				switch op.Op {
 				case "ins", "upd", "del":
 					var st Stmt
 					key := ownKey(ci, op.Key)
+					if regressed {
+						if op.Op != "ins" {
+							continue
+						}
+						key = ownKey(ci, 10+i)
+					}
 					switch op.Op {
 					case "ins":
 						st = Stmt{Kind: "ins", Keys: []Val{key}, Cols: []string{"a"}, Vals: [][]Val{{vInt(int64(op.Val))}}}
@@ -264,16 +371,29 @@ func runSched(c SchedCase, o *Obs) error {
 						errs[ci] = err
 						return
 					}
-					outcome, added, _ := own.Exec(st, wideCols)
+					outcome, added, _ := view.Exec(st, wideCols)
 					start := sc.tick()
 					q, args := st.SQL(tn, "k")
 					err := conn.Exec(q, args...)
+					if cls := errClass(err); cls != outcome && tolerated() {
+						if len(added) > 0 {
+							u := own.Clone()
+							for _, a := range added {
+								u.Add(a)
+							}
+							mu.Lock()
+							uncertain[ci] = u
+							mu.Unlock()
+						}
+						return
+					}
 					if cls := errClass(err); cls != outcome {
 						errs[ci] = fmt.Errorf("%s: outcome %s (%v), expected %s", where, cls, err, outcome)
 						return
 					}
 					for _, a := range added {
 						own.Add(a)
+						view.Add(a)
 					}
 					ack := sc.tick()
 					if len(added) > 0 {
@@ -284,10 +404,16 @@ func runSched(c SchedCase, o *Obs) error {
 				case "refresh":
 					begin := sc.tick()
 					if err := conn.Refresh(tn); err != nil {
+						if tolerated() {
+							return
+						}
 						errs[ci] = fmt.Errorf("%s: %v", where, err)
 						return
 					}
 					if err := recordOpen(begin, conn, tn, where); err != nil {
+						if tolerated() {
+							return
+						}
 						errs[ci] = err
 						return
 					}
@@ -298,12 +424,18 @@ func runSched(c SchedCase, o *Obs) error {
 					begin := sc.tick()
 					if err := rc.Create(rs); err != nil {
 						rc.Close()
+						if tolerated() {
+							return
+						}
 						errs[ci] = fmt.Errorf("%s: read-only open: %v", where, err)
 						return
 					}
 					err := recordOpen(begin, rc, rs.Name, where+" (read-only)")
 					rc.Close()
 					if err != nil {
+						if tolerated() {
+							return
+						}
 						errs[ci] = err
 						return
 					}
@@ -317,6 +449,11 @@ func runSched(c SchedCase, o *Obs) error {
 	}
 	wg.Wait()
 	store.Intercept = nil
+	if os.Getenv("VERIF_TRACE") != "" {
+		for _, q := range store.Log() {
+			fmt.Fprintf(os.Stderr, "  %4d %s miss=%v\n", q.Seq, q.String(), q.Miss)
+		}
+	}
 	for _, e := range errs {
 		if e != nil {
 			return e
@@ -334,6 +471,13 @@ func runSched(c SchedCase, o *Obs) error {
 		return out
 	}
 	for _, op := range opens {
+		if op.delayed {
+			// a version whose nodes are not visible yet is skipped, and with it whatever was
+			// merged into it (also the opener's own earlier commits), so what such an open
+			// shows need not be a committed state of any client. Nothing is lost by it: later
+			// undisturbed opens are held to the full oracle, and so is the final open below
+			continue
+		}
 		per := split(op.rows)
 		for cj := 0; cj < n; cj++ {
 			lo, hi := 0, 0
@@ -402,6 +546,13 @@ func runSched(c SchedCase, o *Obs) error {
 			union.Union(commits[cj][len(commits[cj])-1].state)
 		}
 	}
+	anyHit := false
+	for cj := 0; cj < n; cj++ {
+		anyHit = anyHit || hits[cj] > 0
+	}
+	if anyHit {
+		o.Class("delayed-node")
+	}
 	conn := newConn()
 	defer conn.Close()
 	fs := TableSpec{Name: uniqName("scf"), Columns: mwCols, Bucket: bucket, Client: "final", EPN: c.EPN}
@@ -412,7 +563,23 @@ func runSched(c SchedCase, o *Obs) error {
 	if err != nil {
 		return fmt.Errorf("final scan: %v", err)
 	}
-	if want := union.Rows(wideCols); !got.Equal(want) {
+	// (a write that failed while nodes were delayed may or may not have been stored)
+	okFinal := got.Equal(union.Rows(wideCols))
+	for mask := 1; !okFinal && mask < 1<<n; mask++ {
+		alt, usable := MSet{}, true
+		for cj := 0; cj < n; cj++ {
+			switch {
+			case mask&(1<<cj) != 0 && uncertain[cj] == nil:
+				usable = false
+			case mask&(1<<cj) != 0:
+				alt.Union(uncertain[cj])
+			case len(commits[cj]) > 0:
+				alt.Union(commits[cj][len(commits[cj])-1].state)
+			}
+		}
+		okFinal = usable && got.Equal(alt.Rows(wideCols))
+	}
+	if want := union.Rows(wideCols); !okFinal {
 		return fmt.Errorf("after all clients finished a fresh open does not contain every acknowledged commit.\ns3db:\n%sacknowledged:\n%s", got, want)
 	}
 	o.ClassN("opens-checked", len(opens))
@@ -422,7 +589,7 @@ func runSched(c SchedCase, o *Obs) error {
 func init() { register("TestC03_Sched", runSched) }
 
 func TestC03_Sched(t *testing.T) {
-	st := newStats(t, "C03", "TestC03_Sched", "2-3 clients, each a script of 1-6 operations on its own key range (INSERT/UPDATE/DELETE in autocommit mode with explicit write times, s3db_refresh, read-only open), all on one bucket prefix, plus a generated schedule of up to 120 choices: every client blocks in the fake store before each LIST and each GET/PUT/DELETE under root/ and runs only when the scheduler releases it, so exactly one client runs at a time and the interleaving of version-level requests is the generated one; for every completed open or refresh the rows of every client must equal one of that client's committed states j with lo<=j<=hi (lo = commits acknowledged before the open began, hi = commits started before it ended; the opener's own commits all count); at the end a fresh open must equal the union of all acknowledged commits; non-trivial = a schedule in which an open's LIST and a later GET of a version are separated by another client's PUT/DELETE under root/")
+	st := newStats(t, "C03", "TestC03_Sched", "2-3 clients, each a script of 1-6 operations on its own key range (INSERT/UPDATE/DELETE in autocommit mode with explicit write times, s3db_refresh, read-only open), all on one bucket prefix, plus a generated schedule of up to 120 choices: every client blocks in the fake store before each LIST and each GET/PUT/DELETE under root/ and runs only when the scheduler releases it, so exactly one client runs at a time and the interleaving of version-level requests is the generated one; for every completed open or refresh the rows of every client must equal one of that client's committed states j with lo<=j<=hi (lo = commits acknowledged before the open began, hi = commits started before it ended; the opener's own commits all count); at the end a fresh open must equal the union of all acknowledged commits; in a third of the cases 1-3 generated windows of delayed visibility are added (a client's GETs number n..n+len-1 of tree nodes stored by another client answer "no such object" although the PUT was acknowledged): an operation hit by one may fail (the client stops) or skip the version, opens hit by one are exempt from the per-open oracle, a handle that lost sight of its own rows only inserts unused keys until its next undisturbed refresh, and all undisturbed opens and the final open keep the full oracle; non-trivial = a schedule in which an open's LIST and a later GET of a version are separated by another client's PUT/DELETE under root/")
 	st.Assume = append(st.Assume,
 		"node-object requests pass without yielding (content-addressed, never deleted in these scripts, commute)",
 		"concurrent vacuum is not part of the scripts")
